@@ -14,6 +14,11 @@ var asciiAlpha = []string{"a", "b", "c", "x", "y", "z", "A", "Q", "Z", "0", "1",
 var latin1 = []string{"é", "ß", "ü", "ø", "Ñ", "ÿ", "¡"}
 var wide = []string{"€", "漢", "字", "😀", "Ω", "ž"}
 
+// text fragments that look like escapes of the notations data passes through on its way out (JSON
+// string escapes, HTML-safe JSON escapes, XML entities, URL encoding); none contains a delimiter of
+// a generated format
+var escapeLike = []string{`\u0026`, `\u003c`, `\u003e`, `\u2028`, `\n`, `\\`, `\`, `&amp;`, `&#38;`, `&lt;`, `%26`, `<b>`, `&`, `<`, `>`}
+
 // Charset describes which runes values may contain.
 type Charset struct {
 	Latin1 bool // runes up to U+00FF
@@ -25,8 +30,10 @@ func Text(t *tape.Tape, cs Charset, maxLen int) string {
 	n := t.Intn("val.len", maxLen+1)
 	var sb strings.Builder
 	for i := 0; i < n; i++ {
-		k := t.Weighted("val.cls", 12, 2, 2)
+		k := t.Weighted("val.cls", 24, 4, 4, 1)
 		switch {
+		case k == 3:
+			sb.WriteString(escapeLike[t.Intn("val.esc", len(escapeLike))])
 		case k == 1 && (cs.Latin1 || cs.Wide):
 			sb.WriteString(latin1[t.Intn("val.l1", len(latin1))])
 		case k == 2 && cs.Wide:
